@@ -11,9 +11,9 @@ def _toks(field):
 def c10_casesv(lines):
     rows = []
     for l in lines:
-        _, vec, cls, detail, args, help_, fields = l.split()
-        rows.append("verdict_clean (check_case c10_flags %s %s %s %s %s %s)" % (
-            _toks(vec), cls, coq_bytes(detail), _toks(args), "true" if help_ == "1" else "false", _toks(fields)))
+        _, idx, isz, vec, cls, detail, args, help_, fields = l.split()
+        rows.append("verdict_clean (check_case %s (nth %s%%nat c10_tables []) %s %s %s %s %s %s)" % (
+            isz, idx, _toks(vec), cls, coq_bytes(detail), _toks(args), "true" if help_ == "1" else "false", _toks(fields)))
     return ("From Coq Require Import List NArith.\nImport ListNotations.\nFrom Glb Require Import Check.C10.\n"
             "Open Scope N_scope.\nDefinition verdicts : list bool := [\n  " + ";\n  ".join(rows) +
             "].\nEval vm_compute in verdicts.\n")
@@ -22,7 +22,7 @@ def c10_casesv(lines):
 def c10_sig(line):
     # class of the observation + the vector: stable signature of a finding
     p = line.split()
-    return "c10:" + (p[1] if len(p) > 1 else "")
+    return "c10:" + (p[3] if len(p) > 3 else "")
 
 
 ID = "C10"
@@ -35,14 +35,16 @@ CFG = dict(
     sig=c10_sig,
     rule=("every token vector of length <= 4 over a 16-token alphabet (two bool flags, -b=false, empty values, values that look "
           "like flags, '-', '--', '---s', '-=v', unknown/unparsable), every vector of length <= 2 over a "
-          "39-token alphabet (adds names with '-', '.', non-ASCII and non-UTF-8 bytes) (thorough: <= 5 resp. <= 3), every flag with every value of its kind in the four spellings and repeated, and seeded "
+          "39-token alphabet (adds names with '-', '.', non-ASCII and non-UTF-8 bytes) (thorough: <= 5 resp. <= 3), every flag with every value of its kind in the four spellings and repeated; three SMALL flag sets (2-4 flags) whose longest "
+          "name is non-ASCII (or ties with 'config' in bytes) with all spellings and all vectors of length <= 3 over their own alphabet; "
+          "a GOARCH=386 pass over the integer-kind vectors (IntSize 32); and seeded "
           "grammar-aware random vectors incl. arbitrary byte tokens; a fresh struct + FlagSet per vector, all in one process; "
           "non-trivial = distinct vectors"),
     trusted_base=[HARNESS_TB, EXTRACT_TB,
                   "Lib/ArgGrammar.v is my reading of the documented grammar (package comment, argParse doc comment, flag-package conventions)",
                   "value errors: Model/FlagValue.v models strconv.ParseBool/ParseInt/ParseUint (no '_'), time.ParseDuration (no '.'), "
                   "base64.StdEncoding (no CR/LF); texts outside (all float64 texts) are judged leniently (either outcome accepted)"],
-    assumptions=["strconv.IntSize = 64", "what a non-empty -config does is C09's business: C10 vectors never carry one (and the check is lenient if they do)",
+    assumptions=["int/uint are bounded by strconv.IntSize, reported by the harness in every case line (64 in the main run, 32 in the GOARCH=386 pass)", "what a non-empty -config does is C09's business: C10 vectors never carry one (and the check is lenient if they do)",
                  "the verdict distinguishes nil / error / PANIC only; message prefix and carried text refine byte drift"],
 )
 CFG["manifest"] = dict(
@@ -57,6 +59,66 @@ CFG["manifest"] = dict(
           "Go harness. float64 texts and texts with '_' / '.' / CR LF are outside the modelled value parsers (lenient)."),
     technique="Coq proof (refinement of an inductive grammar, both directions) + differential correspondence",
 )
+
+
+def c10_pass_386(tier):
+    """32-bit pass: the C10 harness built for GOARCH=386 (strconv.IntSize = 32) runs the integer-kind vectors
+    (VERIF_C10_MODE=ints); the same extracted check function judges them with int_size = 32 from the case line."""
+    import hashlib
+    import os
+    import shutil
+    import vcheck as V
+    cov, problems = {}, []
+    tag = "" if V.REPO == "/repo" else "_" + hashlib.sha1(V.REPO.encode()).hexdigest()[:8]
+    exe = os.path.join(V.BUILD, "h_c10_386" + tag)
+    hdir = os.path.join(V.VERIF, "harness")
+    env = dict(V.GOENV, GOARCH="386", CGO_ENABLED="0")
+    with V.Lock("go" + tag):
+        modfile = os.path.join(hdir, "go.mod")
+        if tag:
+            md = os.path.join(V.BUILD, "gomod" + tag)
+            os.makedirs(md, exist_ok=True)
+            modfile = os.path.join(md, "go.mod")
+            open(modfile, "w").write(open(os.path.join(hdir, "go.mod")).read().replace("=> /repo", "=> " + V.REPO))
+        try:
+            shutil.copyfile(os.path.join(V.REPO, "go.sum"), modfile[:-4] + ".sum")
+        except OSError:
+            pass
+        rc, out, dt = V.run(["go", "build", "-modfile=" + modfile, "-tags", "verif", "-o", exe, "./cmd/c10"], cwd=hdir, env=env, timeout=900)
+    if rc != 0:
+        problems.append(("tie", "C10 harness does not build for GOARCH=386", {"broken": "harness build 386", "log_tail": out[-2000:]}))
+        return 1, 0, problems, cov
+    rundir = os.path.join(V.BUILD, "run-C10-386-%d" % os.getpid())
+    shutil.rmtree(rundir, ignore_errors=True)
+    os.makedirs(rundir)
+    try:
+        rc, out, dt = V.run([exe, "-out", rundir, "-tier", tier, "-seed", "1"], env=dict(os.environ, VERIF_DIR=V.VERIF, VERIF_C10_MODE="ints"), timeout=600)
+        if rc != 0:
+            # e.g. the kernel cannot execute 32-bit binaries: not a finding about the code
+            cov["pass_386"] = "not run: " + out.strip()[-200:]
+            return 1, 1, problems, cov
+        ok, bout = V.build_ocaml("c10")
+        drv = os.path.join(V.VERIF, "ocaml", "c10", "drv")
+        rc, out, dt = V.run([drv, os.path.join(rundir, "cases.txt")], timeout=600)
+        nspec = 0
+        stats = ""
+        for line in out.splitlines():
+            if line.startswith("SPECFAIL "):
+                nspec += 1
+                if nspec <= 5:
+                    problems.append(("specfail", "GOARCH=386: specification fails on the implementation's output: " + line[9:][:300],
+                                     {"case": line[9:], "goarch": "386", "sig": c10_sig(line[9:])}))
+            elif line.startswith("MISMATCH "):
+                problems.append(("tie", "GOARCH=386: " + line[:300], {"broken": "correspondence C10 (386)", "case": line[9:]}))
+            elif line.startswith("STATS "):
+                stats = line[6:]
+        cov["pass_386"] = "GOARCH=386 CGO_ENABLED=0, integer-kind vectors: " + stats
+        return 1, (1 if nspec == 0 and rc == 0 else 0), problems, cov
+    finally:
+        shutil.rmtree(rundir, ignore_errors=True)
+
+
+CFG["static"] = CFG.get("static", []) + [c10_pass_386]
 
 import tables  # constant tables / literals of the current source proved equal to the model's on every run (lib/tables.py)
 CFG["secondary"] = CFG.get("secondary", []) + [tables.C10_TABLES]
